@@ -644,3 +644,171 @@ pub fn gen_c20(ctx: &mut Ctx) {
         }
     }
 }
+
+// --------------------------------------------------------------------------------------------
+/// C03 tie: count() of the model vs the real count() on register vectors hitting all three
+/// estimator regimes and both sides of every switch-over, for all 15 precisions.
+pub fn gen_c03(ctx: &mut Ctx) {
+    for b in 4..=18u64 {
+        let m = 1u64 << b;
+        ctx.case("c03.regimes");
+        ctx.hasher(ScriptBH::xor());
+        ctx.op(format!("hll.new 1 {}", b));
+        ctx.op("hll.count 1".into());
+        ctx.op("hll.relerr 1".into());
+        // few distinct elements (linear counting, exact for b >= 9)
+        for j in 1..=8u64 {
+            ctx.op(format!("hll.addh 1 {}", (ctx.rng.clone().next() << b) | (j * (m / 16).max(1)) % m));
+            ctx.op("hll.count 1".into());
+        }
+        // grow through the hand-over (h <= threshold) and the 5m switch, reading densely
+        let mut n = 8u64;
+        let top = if ctx.tier_scale > 1 { 60 * m } else { (8 * m).min(400_000) };
+        while n < top {
+            let step = (n / if ctx.tier_scale > 1 { 12 } else { 5 }).max(1);
+            ctx.op(format!("hll.addmany 1 {} {}", ctx.rng.clone().next(), step));
+            n += step;
+            ctx.op("hll.count 1".into());
+        }
+        ctx.stat(&format!("c03.b.{}", b), 1);
+    }
+    // arbitrary register contents (all 256 byte values), explicit vectors for small precisions
+    for _ in 0..(20 * ctx.tier_scale) {
+        ctx.case("c03.arbitrary");
+        let b = ctx.rng.range(4, 10);
+        let m = 1u64 << b;
+        let mode = ctx.rng.below(4);
+        let regs: Vec<String> = (0..m)
+            .map(|_| match mode {
+                0 => ctx.rng.below(256),
+                1 => ctx.rng.below(2) * 255,
+                2 => ctx.rng.below(4),
+                _ => if ctx.rng.chance(1, 10) { ctx.rng.below(60) } else { 0 },
+            }.to_string())
+            .collect();
+        ctx.op(format!("hll.with 1 {} {}", b, regs.join(" ")));
+        ctx.op("hll.count 1".into());
+        ctx.stat("c03.arbitrary", 1);
+    }
+}
+
+pub fn gen_c05(ctx: &mut Ctx) {
+    // the tie for C05 is the reservoir model itself (phases, RNG consumption order)
+    for _ in 0..(150 * ctx.tier_scale) {
+        ctx.case("res");
+        res_history(ctx);
+    }
+}
+
+pub fn gen_c07(ctx: &mut Ctx) {
+    let ps = [0.999f64, 0.9, 0.75, 0.51, 0.5, 0.49, 0.3, 0.25, 0.125, 0.1, 0.01, 0.001, 1e-6, 1e-12, 1e-19, 1e-300];
+    let ns = [1u64, 2, 3, 10, 50, 1000, 20_000];
+    for &n in &ns {
+        for &p in &ps {
+            ctx.case("c07.sizing");
+            let bh = ctx.rand_hasher();
+            ctx.hasher(bh);
+            // keep the bit array of the model small
+            let bloom_bits = -(n as f64) * p.ln() / (2f64.ln() * 2f64.ln());
+            if bloom_bits < 3e5 {
+                let a = ctx.op(format!("bloom.props 1 {} {}", n, fx(p)));
+                if a.starts_with("ok") {
+                    ctx.op("bloom.getters 1".into());
+                    ctx.op("bloom.insert 1 7".into());
+                    ctx.op("bloom.query 1 7".into());
+                    ctx.op("bloom.query 1 8".into());
+                    ctx.op("bloom.len 1".into());
+                    ctx.stat("c07.bloom.ok", 1);
+                }
+            }
+            if n <= 1000 {
+                for which in [4, 8] {
+                    let a = ctx.op(format!("cuckoo.props 2 {} {} {} 5", which, fx(p), n));
+                    if a.starts_with("ok") {
+                        ctx.op("cuckoo.getters 2".into());
+                        ctx.op("cuckoo.insert 2 7".into());
+                        ctx.op("cuckoo.query 2 7".into());
+                        ctx.stat("c07.cuckoo.ok", 1);
+                    } else {
+                        ctx.stat("c07.cuckoo.rejected", 1);
+                    }
+                }
+            }
+        }
+    }
+    // invalid arguments
+    ctx.case("c07.reject");
+    for p in [0.0f64, 1.0, -0.5, 1.5, f64::NAN] {
+        ctx.op(format!("bloom.props 1 10 {}", fx(p)));
+        ctx.op(format!("cuckoo.props 2 4 {} 10 5", fx(p)));
+    }
+    ctx.op(format!("bloom.props 1 0 {}", fx(0.1)));
+    ctx.op(format!("cuckoo.props 2 8 {} 0 5", fx(0.1)));
+    // Bloom::len() against the number of distinct inserts while at most half the bits are set
+    for _ in 0..(10 * ctx.tier_scale) {
+        ctx.case("c07.len");
+        let bh = ctx.rand_hasher();
+        ctx.hasher(bh);
+        let m = ctx.rng.range(200, 4000);
+        let k = ctx.rng.range(1, 5);
+        ctx.op(format!("bloom.new 1 {} {}", m, k));
+        for i in 0..(m / (3 * k)) {
+            ctx.op(format!("bloom.insert 1 {}", i * 7919 + 13));
+            if i % 16 == 0 {
+                ctx.op("bloom.len 1".into());
+            }
+        }
+        ctx.op("bloom.len 1".into());
+    }
+}
+
+pub fn gen_c08(ctx: &mut Ctx) {
+    let epss = [2.0f64, 1.0, 0.5, 0.3, 0.1, 0.01, 0.003];
+    let deltas = [0.999f64, 0.9, 0.5, 0.37, 0.36, 0.1, 0.01, 1e-6, 1e-30];
+    for &eps in &epss {
+        for &delta in &deltas {
+            ctx.case("c08.sizing");
+            let bh = ctx.rand_hasher();
+            ctx.hasher(bh);
+            let a = ctx.op(format!("cms.props 1 {} {}", fx(eps), fx(delta)));
+            if a.starts_with("ok") {
+                ctx.op("cms.getters 1".into());
+                for i in 0..12 {
+                    ctx.op(format!("cms.addn 1 {} {}", i % 5, i + 1));
+                }
+                for i in 0..6 {
+                    ctx.op(format!("cms.query 1 {}", i));
+                }
+            }
+        }
+    }
+    ctx.case("c08.reject");
+    for (e, d) in [(0.0f64, 0.1f64), (-1.0, 0.1), (0.1, 0.0), (0.1, 1.0), (0.1, 1.5), (f64::NAN, 0.5), (0.1, f64::NAN)] {
+        ctx.op(format!("cms.props 1 {} {}", fx(e), fx(d)));
+    }
+    for _ in 0..(15 * ctx.tier_scale) {
+        ctx.case("cms");
+        cms_history(ctx, 100);
+    }
+}
+
+pub fn gen_c11(ctx: &mut Ctx) {
+    // the tie for C11: heap bytes of the packed tables against the model's block arithmetic
+    for lf in [2u64, 3, 5, 8, 13, 31, 32, 33, 63, 64] {
+        for (bs, nb) in [(2u64, 2u64), (3, 4), (4, 64), (8, 512), (4, 65536)] {
+            ctx.case("c11.cuckoo");
+            ctx.op(format!("mem.cuckoo 1 {} {} {}", bs, nb, lf));
+        }
+    }
+    for (q, r) in [(1u64, 1u64), (3, 2), (4, 60), (8, 5), (10, 13), (12, 52), (16, 8), (5, 59)] {
+        ctx.case("c11.qf");
+        ctx.op(format!("mem.qf 1 {} {}", q, r));
+    }
+    // configuration-only sizes of the other structures through their histories
+    for _ in 0..(6 * ctx.tier_scale) {
+        ctx.case("cuckoo");
+        cuckoo_history(ctx, 150);
+        ctx.case("qf");
+        qf_history(ctx, 150);
+    }
+}
